@@ -605,6 +605,7 @@ class Parser(object):
             self.advance()
             decls = self.var_decls(False)
             if len(decls) == 1 and self.is_kw('in'):
+                decls[0].first = vfirst  # the for-in declaration owns its `var` keyword
                 self.advance()
                 right = self.expression(True)
                 self.expect_p(')')
